@@ -63,7 +63,7 @@ std::string KindRec::text() const { return "kind cs=" + cs.str() + " eff=" + std
 std::string Dump::obj_line(const ObjRec &o, bool xmlproj) const {
   std::ostringstream s;
   s << hwloc_obj_type_string((hwloc_obj_type_t)o.type) << " gp=" << o.gp << " os=" << (o.os_index == HWLOC_UNKNOWN_INDEX ? std::string("-") : std::to_string(o.os_index))
-    << " L#" << o.logical_index << " rank=" << o.sibling_rank << " depth=" << o.depth << " sub=" << (o.has_subtype ? q(o.subtype) : "-") << " name=" << (o.has_name ? q(o.name) : "-");
+    << " L#" << ((xmlproj && o.depth < 0) ? std::string("*") : std::to_string(o.logical_index)) << " rank=" << o.sibling_rank << " depth=" << o.depth << " sub=" << (o.has_subtype ? q(o.subtype) : "-") << " name=" << (o.has_name ? q(o.name) : "-");
   if (o.hassets) s << " cs=" << o.cs.str() << " ccs=" << o.ccs.str() << " ns=" << o.ns.str() << " cns=" << o.cns.str();
   s << " attr{" << o.attr << "} infos=" << infos_text(o.infos) << " tm=" << o.total_memory;
   if (!xmlproj) s << " sym=" << o.symmetric;
@@ -95,9 +95,23 @@ std::string Dump::text(bool xmlproj, bool with_userdata) const {
     if (with_userdata && !xmlproj) s << " ud=" << o.userdata;
     s << "\n";
   }
-  for (auto &l : levels) { s << "level " << l.first << " type=" << depth_type.at(l.first) << ":"; for (uint64_t g : l.second) s << " " << g; s << "\n"; }
+  // the order inside special (memory, I/O, Misc) levels, hence the logical_index of their objects, is not among the fields XML promises
+  for (auto &l : levels) { s << "level " << l.first << " type=" << depth_type.at(l.first) << ":"; std::vector<uint64_t> v = l.second; if (xmlproj && l.first < 0) std::sort(v.begin(), v.end()); for (uint64_t g : v) s << " " << g; s << "\n"; }
   if (have_aux) s << aux_text(xmlproj);
   return s.str();
+}
+
+std::string Dump::text_norm(bool xmlproj) const {
+  Dump n = *this; std::map<uint64_t, uint64_t> m; uint64_t k = 0;
+  for (uint64_t gp : order) m[gp] = k++;
+  auto mp = [&](uint64_t g) { auto it = m.find(g); return it == m.end() ? g + 1000000 : it->second; };
+  n.objs.clear(); n.order.clear();
+  for (uint64_t gp : order) { ObjRec o = objs.at(gp); o.gp = mp(gp); if (o.parent != ~0ULL) o.parent = mp(o.parent); for (auto &kk : o.kids) for (auto &x : kk) x = mp(x); n.objs[o.gp] = o; n.order.push_back(o.gp); }
+  n.root = mp(root);
+  for (auto &l : n.levels) for (auto &x : l.second) x = mp(x);
+  for (auto &d : n.dists) for (auto &x : d.objs) x = mp(x);
+  for (auto &a : n.memattrs) for (auto &t : a.targets) { t.gp = mp(t.gp); for (auto &i : t.inits) if (i.loc.rfind("obj:", 0) == 0 && i.loc != "obj:NULL") i.loc = "obj:" + std::to_string(mp(strtoull(i.loc.c_str() + 4, nullptr, 10))); }
+  return n.text(xmlproj, !xmlproj);
 }
 
 static const int SPECIAL_DEPTHS[] = {HWLOC_TYPE_DEPTH_NUMANODE, HWLOC_TYPE_DEPTH_BRIDGE, HWLOC_TYPE_DEPTH_PCI_DEVICE, HWLOC_TYPE_DEPTH_OS_DEVICE, HWLOC_TYPE_DEPTH_MISC, HWLOC_TYPE_DEPTH_MEMCACHE};
@@ -179,7 +193,7 @@ void take_dump(hwloc_topology_t t, Dump &d, DumpMode mode) {
         unsigned ni = 0; if (hwloc_memattr_get_initiators(t, id, node, 0, &ni, nullptr, nullptr) < 0 || !ni) continue;
         std::vector<struct hwloc_location> locs(ni); std::vector<hwloc_uint64_t> vals(ni); unsigned n2 = ni;
         if (hwloc_memattr_get_initiators(t, id, node, 0, &n2, locs.data(), vals.data()) < 0) continue;
-        for (unsigned i = 0; i < n2 && i < ni; i++) tg.inits.push_back({loc_text(locs[i]), vals[i]});
+        for (unsigned i = 0; i < n2 && i < ni; i++) { MemInit mi; mi.loc = loc_text(locs[i]); mi.value = vals[i]; mi.is_cs = locs[i].type == HWLOC_LOCATION_TYPE_CPUSET; if (mi.is_cs) mi.cs = BSet::from(locs[i].location.cpuset); tg.inits.push_back(mi); }
         std::sort(tg.inits.begin(), tg.inits.end(), [](const MemInit &a, const MemInit &b) { return a.loc < b.loc || (a.loc == b.loc && a.value < b.value); });
       } else {
         hwloc_uint64_t v = 0; if (hwloc_memattr_get_value(t, id, node, nullptr, 0, &v) < 0) continue;
